@@ -149,5 +149,8 @@ ClosedClean == closed => \A k \in K : tab[k] = Absent
 \* every suspended unboxing has its question or its answer under way, in order: nobody waits for ever
 AnswersUnderWay == Cardinality({i \in DOMAIN hstack : ~hstack[i].ready})
                      = Cardinality({i \in DOMAIN toO : toO[i].type = "INSP"}) + Cardinality({i \in DOMAIN toH : toH[i].type = "INSPR"})
+\* NOT an invariant of the design (kept for its counterexample): the number of unboxings suspended inside one another is not
+\* bounded by anything but the number of references in flight - in the code each level is a nested serve() on the same stack
+NestingAtMostTwo == Len(hstack) <= 2
 \* refinement: forgetting the inspection detail gives a behaviour of RpycLifetime's state (counts per key)
 =====================================================================================
